@@ -30,33 +30,83 @@ theorem checkNames_ok_iff (l : List Tok) : checkNames l = .ok () ↔ l.Nodup := 
   cases firstDup l <;> simp
 
 mutual
-theorem flatNames_prune (f : Attr → Bool) : ∀ ks : List CN, (flatNames (pruneKids f ks)).Sublist (flatNames ks)
-  | [] => by simp [pruneKids, flatNames]
+theorem dataNames_prune (f : Attr → Bool) : ∀ ks : List CN, (dataNames (pruneKids f ks)).Sublist (dataNames ks)
+  | [] => by simp [pruneKids, dataNames]
   | .mk a kids :: r => by
     simp only [pruneKids]
     by_cases hf : f a = true
-    · simp only [hf, if_true, flatNames]
+    · simp only [hf, if_true, dataNames]
       by_cases hk : a.kind = .choice
-      · simp only [hk, if_true]; exact List.Sublist.append (flatCaseNames_prune f kids) (flatNames_prune f r)
-      · simp only [hk, if_false]; exact List.Sublist.append (List.Sublist.refl _) (flatNames_prune f r)
-    · simp only [hf, flatNames]
-      exact List.Sublist.trans (flatNames_prune f r) (List.sublist_append_right _ _)
-theorem flatCaseNames_prune (f : Attr → Bool) : ∀ ks : List CN, (flatCaseNames (pruneKids f ks)).Sublist (flatCaseNames ks)
-  | [] => by simp [pruneKids, flatCaseNames]
+      · simp only [hk, if_true]; exact List.Sublist.append (dataCaseNames_prune f kids) (dataNames_prune f r)
+      · simp only [hk, if_false]; exact List.Sublist.append (List.Sublist.refl _) (dataNames_prune f r)
+    · simp only [hf, dataNames]
+      exact List.Sublist.trans (dataNames_prune f r) (List.sublist_append_right _ _)
+theorem dataCaseNames_prune (f : Attr → Bool) : ∀ ks : List CN, (dataCaseNames (pruneKids f ks)).Sublist (dataCaseNames ks)
+  | [] => by simp [pruneKids, dataCaseNames]
   | .mk a kids :: r => by
     simp only [pruneKids]
     by_cases hf : f a = true
-    · simp only [hf, if_true, flatCaseNames]
+    · simp only [hf, if_true, dataCaseNames]
       by_cases hk : a.kind = .case
-      · simp only [hk, if_true]; exact List.Sublist.append (flatNames_prune f kids) (flatCaseNames_prune f r)
-      · simp only [hk, if_false]; exact List.Sublist.append (List.Sublist.refl _) (flatCaseNames_prune f r)
-    · simp only [hf, flatCaseNames]
-      exact List.Sublist.trans (flatCaseNames_prune f r) (List.sublist_append_right _ _)
+      · simp only [hk, if_true]; exact List.Sublist.append (dataNames_prune f kids) (dataCaseNames_prune f r)
+      · simp only [hk, if_false]; exact List.Sublist.append (List.Sublist.refl _) (dataCaseNames_prune f r)
+    · simp only [hf, dataCaseNames]
+      exact List.Sublist.trans (dataCaseNames_prune f r) (List.sublist_append_right _ _)
 end
+
+/-- pruning keeps a subsequence of the children, attributes unchanged -/
+theorem prune_attrs (f : Attr → Bool) : ∀ ks : List CN, ((pruneKids f ks).map (·.attr)).Sublist (ks.map (·.attr))
+  | [] => by simp [pruneKids]
+  | .mk a kids :: r => by
+    simp only [pruneKids]
+    by_cases hf : f a = true
+    · simp only [hf, if_true, List.map_cons, CN.attr]
+      exact List.Sublist.cons_cons _ (prune_attrs f r)
+    · simp only [hf, List.map_cons, CN.attr]
+      exact List.Sublist.cons _ (prune_attrs f r)
+
+theorem kidMarks_eq (ks : List CN) : kidMarks ks = (ks.map (·.attr)).map fun a => mark a.name := by
+  simp [kidMarks, List.map_map, Function.comp_def]
+
+theorem choiceMarks_eq (ks : List CN) :
+    choiceMarks ks = (ks.map (·.attr)).filterMap fun a => if a.kind = .choice then some (mark a.name) else none := by
+  simp [choiceMarks, List.filterMap_map, Function.comp_def]
+
+theorem kidMarks_prune (f : Attr → Bool) (ks : List CN) : (kidMarks (pruneKids f ks)).Sublist (kidMarks ks) := by
+  rw [kidMarks_eq, kidMarks_eq]; exact (prune_attrs f ks).map _
+
+theorem choiceMarks_prune (f : Attr → Bool) (ks : List CN) : (choiceMarks (pruneKids f ks)).Sublist (choiceMarks ks) := by
+  rw [choiceMarks_eq, choiceMarks_eq]; exact (prune_attrs f ks).filterMap _
+
+theorem choiceMarks_sub_kidMarks : ∀ ks : List CN, (choiceMarks ks).Sublist (kidMarks ks)
+  | [] => by simp [choiceMarks, kidMarks]
+  | k :: r => by
+    have ih := choiceMarks_sub_kidMarks r
+    simp only [choiceMarks, kidMarks, List.filterMap_cons, List.map_cons] at ih ⊢
+    by_cases hk : k.attr.kind = .choice
+    · simp only [hk, if_true]; exact List.Sublist.cons_cons _ ih
+    · simp only [hk, if_false]; exact List.Sublist.cons _ ih
+
+/-- what a case checks covers what a container would check -/
+theorem flatNames_sub_caseKidNames (ks : List CN) : (flatNames ks).Sublist (caseKidNames ks) :=
+  List.Sublist.append (choiceMarks_sub_kidMarks ks) (List.Sublist.refl _)
+
+theorem flatNames_prune (f : Attr → Bool) (ks : List CN) : (flatNames (pruneKids f ks)).Sublist (flatNames ks) :=
+  List.Sublist.append (choiceMarks_prune f ks) (dataNames_prune f ks)
+
+theorem flatCaseNames_prune (f : Attr → Bool) (ks : List CN) : (flatCaseNames (pruneKids f ks)).Sublist (flatCaseNames ks) :=
+  List.Sublist.append (kidMarks_prune f ks) (dataCaseNames_prune f ks)
+
+theorem caseKidNames_prune (f : Attr → Bool) (ks : List CN) : (caseKidNames (pruneKids f ks)).Sublist (caseKidNames ks) :=
+  List.Sublist.append (kidMarks_prune f ks) (dataNames_prune f ks)
 
 theorem checkNames_prune {f : Attr → Bool} {ks : List CN} (h : checkNames (flatNames ks) = .ok ()) :
     checkNames (flatNames (pruneKids f ks)) = .ok () := by
   rw [checkNames_ok_iff] at h ⊢; exact List.Nodup.sublist (flatNames_prune f ks) h
+
+theorem checkKidNames_prune {f : Attr → Bool} {ks : List CN} (h : checkNames (caseKidNames ks) = .ok ()) :
+    checkNames (caseKidNames (pruneKids f ks)) = .ok () := by
+  rw [checkNames_ok_iff] at h ⊢; exact List.Nodup.sublist (caseKidNames_prune f ks) h
 
 theorem checkCaseNames_prune {f : Attr → Bool} {ks : List CN} (h : checkNames (flatCaseNames ks) = .ok ()) :
     checkNames (flatCaseNames (pruneKids f ks)) = .ok () := by
@@ -108,7 +158,7 @@ theorem build_case_cfg (g : Attr → Bool) (env : FeatEnv) (inh : Inh) (n : Tok)
     | error e => simp [hk] at h
     | ok ks =>
       simp only [hk, ebind_ok] at h
-      cases hn : checkNames (flatNames ks) with
+      cases hn : checkNames (caseKidNames ks) with
       | error e => simp [hn] at h
       | ok u =>
         simp only [hn, ebind_ok, epure, Except.ok.injEq] at h
@@ -224,13 +274,13 @@ theorem build_prune : ∀ (a : A) (inh : Inh) (c : CN), wfA a = true →
       | error e => simp [hk] at h
       | ok ks =>
         simp only [hk, ebind_ok] at h
-        cases hn : checkNames (flatNames ks) with
+        cases hn : checkNames (caseKidNames ks) with
         | error e => simp [hn] at h
         | ok u =>
           simp only [hn, ebind_ok, epure, Except.ok.injEq] at h
           subst h
           rw [buildKids_prune kids i ks (by simpa [wfA] using hw) hk]
-          simp only [ebind_ok, checkNames_prune hn, epure, prune]
+          simp only [ebind_ok, checkKidNames_prune hn, epure, prune]
   | .leaf n m mand d, inh, c, _, h => by
     simp only [build] at h ⊢
     cases hi : inherit m inh with
